@@ -663,6 +663,121 @@ example :
     ((1 : ℝ) * 1 = nsq (sub pS (thetaCentre pS pE n 0 1 2 2))) := by
   norm_num [circPt, comb, nsq, dot, sub, add, cross, thetaChord, thetaCentre, midPoint, unitVec, smul]
 
+/-! ### round 6c: the length theorem directly on coordinates; arc ≥ chord for every three-point arc -/
+
+/-- **`arc_length_3point` on coordinates, over ℝ** — no frame, no angles given: for *any* three points of ℝ³ that the guard accepts
+    (`denom ≠ 0`), with `C` the computed centre, `r_i` the radius vectors, `R = |r1|` and `φ = arccos(r1·r3 / R²) ∈ [0, π]` the included
+    angle: `R > 0`, `|r3|² = R²`, the cosine is never clipped, and the reported length is `R·φ` when the code's side test
+    `dot(cross(r1,r2), cross(r1,r3)) < 0` is false and `R·(2π − φ)` when it is true. -/
+theorem T_C08_arc3_length_coords (pS pB pE : Vec ℝ) (hden : arc3Denom pS pB pE ≠ 0) :
+    0 < Real.sqrt (nsq (sub pS (arc3Centre pS pB pE))) ∧
+    nsq (sub pE (arc3Centre pS pB pE)) = nsq (sub pS (arc3Centre pS pB pE)) ∧
+    arc3LengthR pS pB pE =
+      Real.sqrt (nsq (sub pS (arc3Centre pS pB pE))) *
+        (if arc3SideTest (sub pS (arc3Centre pS pB pE)) (sub pB (arc3Centre pS pB pE)) (sub pE (arc3Centre pS pB pE)) < 0
+          then 2 * Real.pi - Real.arccos (dot (sub pS (arc3Centre pS pB pE)) (sub pE (arc3Centre pS pB pE))
+                / nsq (sub pS (arc3Centre pS pB pE)))
+          else Real.arccos (dot (sub pS (arc3Centre pS pB pE)) (sub pE (arc3Centre pS pB pE))
+                / nsq (sub pS (arc3Centre pS pB pE)))) := by
+  obtain ⟨c1, c2, _⟩ := T_C08_arc3_centre pS pB pE hden
+  obtain ⟨C, hC⟩ : ∃ C, C = arc3Centre pS pB pE := ⟨_, rfl⟩
+  rw [← hC] at c1 c2 ⊢
+  have sym : ∀ u v : Vec ℝ, nsq (sub u v) = nsq (sub v u) := by
+    intro u v; simp only [nsq, dot, sub]; ring
+  have h2 : nsq (sub pB C) = nsq (sub pS C) := by rw [sym pB C, sym pS C, c1]
+  have h3 : nsq (sub pE C) = nsq (sub pS C) := by rw [sym pE C, sym pS C, c2]
+  have hnn : ∀ v : Vec ℝ, 0 ≤ nsq v := by
+    intro v; simp only [nsq, dot]; nlinarith [mul_self_nonneg v.x, mul_self_nonneg v.y, mul_self_nonneg v.z]
+  -- the radius is positive: otherwise the three points coincide and the denominator vanishes
+  have hR2 : 0 < nsq (sub pS C) := by
+    rcases lt_or_eq_of_le (hnn (sub pS C)) with h | h
+    · exact h
+    · exfalso
+      have ha : nsq (sub pB pS) ≤ 2 * nsq (sub pB C) + 2 * nsq (sub pS C) := by
+        have : 2 * nsq (sub pB C) + 2 * nsq (sub pS C) - nsq (sub pB pS)
+            = nsq (add (sub pB C) (sub pS C)) := by simp only [nsq, dot, sub, add]; ring
+        linarith [hnn (add (sub pB C) (sub pS C))]
+      have ha0 : nsq (sub pB pS) = 0 := le_antisymm (by rw [h2, ← h] at ha; linarith) (hnn _)
+      have hcs := cauchy_schwarz (sub pB pS) (sub pE pS)
+      have hd : arc3Denom pS pB pE = nsq (sub pB pS) * nsq (sub pE pS) - dot (sub pB pS) (sub pE pS) * dot (sub pB pS) (sub pE pS) := rfl
+      have hd2 := arc3Denom_eq pS pB pE
+      have : arc3Denom pS pB pE = 0 := by
+        apply le_antisymm
+        · rw [hd, ha0]; nlinarith [mul_self_nonneg (dot (sub pB pS) (sub pE pS))]
+        · rw [hd2]; exact hnn _
+      exact hden this
+  obtain ⟨R, hR⟩ : ∃ R, R = Real.sqrt (nsq (sub pS C)) := ⟨_, rfl⟩
+  have hR0 : 0 < R := by rw [hR]; exact Real.sqrt_pos.mpr hR2
+  have hRR : R * R = nsq (sub pS C) := by rw [hR]; exact Real.mul_self_sqrt (le_of_lt hR2)
+  refine ⟨by rw [← hR]; exact hR0, h3, ?_⟩
+  unfold arc3LengthR arc3LengthAt arc3AngleR
+  rw [← hC, h3, ← hR, ← hRR]
+  -- the cosine is within [-1, 1]: no clipping
+  have hcs := cauchy_schwarz (sub pS C) (sub pE C)
+  rw [h3, ← hRR] at hcs
+  have habs : |dot (sub pS C) (sub pE C)| ≤ R * R := by
+    exact abs_le_of_sq_le_sq (by rw [sq, sq]; exact hcs) (by positivity)
+  have hq : clipR (dot (sub pS C) (sub pE C) / (R * R)) = dot (sub pS C) (sub pE C) / (R * R) := by
+    have hpos : 0 < R * R := by positivity
+    have hb := abs_le.mp habs
+    unfold clipR
+    rw [if_neg (by rw [not_lt, le_div_iff₀ hpos]; linarith), if_neg (by rw [not_lt, div_le_iff₀ hpos]; linarith)]
+  rw [hq]
+  split <;> ring
+
+/-- **Arc length ≥ chord for every three-point arc** (classic arcs, and Origin / Angle arcs, whose length is `arc_length_3point` of the
+    written third point) — over ℝ, for all inputs the guard accepts, whichever way the side test decides:
+    `|pE − pS| ≤ arc_length_3point(pS, pB, pE)`.  (`|pE − pS|² = 2R²(1 − cos φ) ≤ R²φ²`, and `2π − φ ≥ φ`.) -/
+theorem T_C08_arc3_chord_real (pS pB pE : Vec ℝ) (hden : arc3Denom pS pB pE ≠ 0) :
+    Real.sqrt (nsq (sub pE pS)) ≤ arc3LengthR pS pB pE := by
+  obtain ⟨hR0, h3, hlen⟩ := T_C08_arc3_length_coords pS pB pE hden
+  obtain ⟨C, hC⟩ : ∃ C, C = arc3Centre pS pB pE := ⟨_, rfl⟩
+  rw [← hC] at hR0 h3 hlen
+  obtain ⟨R, hR⟩ : ∃ R, R = Real.sqrt (nsq (sub pS C)) := ⟨_, rfl⟩
+  rw [← hR] at hR0 hlen
+  have hR2 : 0 < nsq (sub pS C) := by
+    by_contra h
+    rw [hR, Real.sqrt_eq_zero_of_nonpos (not_lt.mp h)] at hR0
+    exact lt_irrefl _ hR0
+  have hRR : R * R = nsq (sub pS C) := by rw [hR]; exact Real.mul_self_sqrt (le_of_lt hR2)
+  obtain ⟨q, hq⟩ : ∃ q, q = dot (sub pS C) (sub pE C) / nsq (sub pS C) := ⟨_, rfl⟩
+  rw [← hq] at hlen
+  have hcs := cauchy_schwarz (sub pS C) (sub pE C)
+  rw [h3] at hcs
+  have habs : |dot (sub pS C) (sub pE C)| ≤ nsq (sub pS C) :=
+    abs_le_of_sq_le_sq (by rw [sq, sq]; exact hcs) (le_of_lt hR2)
+  have hb := abs_le.mp habs
+  have hq1 : -1 ≤ q := by rw [hq, le_div_iff₀ hR2]; linarith
+  have hq2 : q ≤ 1 := by rw [hq, div_le_iff₀ hR2]; linarith
+  have hcos : Real.cos (Real.arccos q) = q := Real.cos_arccos hq1 hq2
+  have hφ0 := Real.arccos_nonneg q
+  have hφπ := Real.arccos_le_pi q
+  -- the squared chord
+  have hch : nsq (sub pE pS) = 2 * (R * R) * (1 - q) := by
+    have e : nsq (sub pE pS) = nsq (sub pE C) + nsq (sub pS C) - 2 * dot (sub pS C) (sub pE C) := by
+      simp only [nsq, dot, sub]; ring
+    have hd : dot (sub pS C) (sub pE C) = q * nsq (sub pS C) := by rw [hq]; field_simp
+    rw [e, h3, hd, hRR]; ring
+  have hbound := Real.one_sub_sq_div_two_le_cos (x := Real.arccos q)
+  rw [hcos] at hbound
+  have hfirst : Real.sqrt (nsq (sub pE pS)) ≤ R * Real.arccos q := by
+    have h0 : 0 ≤ R * Real.arccos q := mul_nonneg (le_of_lt hR0) hφ0
+    calc Real.sqrt (nsq (sub pE pS)) ≤ Real.sqrt ((R * Real.arccos q) * (R * Real.arccos q)) := by
+          apply Real.sqrt_le_sqrt
+          rw [hch]
+          nlinarith [mul_pos hR0 hR0]
+      _ = R * Real.arccos q := Real.sqrt_mul_self h0
+  rw [hlen]
+  split
+  · have : R * Real.arccos q ≤ R * (2 * Real.pi - Real.arccos q) :=
+      mul_le_mul_of_nonneg_left (by linarith) (le_of_lt hR0)
+    linarith
+  · exact hfirst
+
+/-- non-vacuity: three points of a circle of radius 5 about (1, 2, 3) -/
+example : arc3Denom (⟨6, 2, 3⟩ : Vec ℝ) ⟨1, 7, 3⟩ ⟨1, -3, 3⟩ ≠ 0 := by
+  norm_num [arc3Denom, nsq, dot, sub]
+
 /-! ### round 6: tie to the source text (tables regenerated by `cbv/tables/c08.py` with `ast` on every run)
 
 The translator normalises the source first: docstrings, comments, annotations dropped, parameters (other than `self`) and locals
